@@ -11,6 +11,8 @@ CK_HEADERS = [["-- atlas:checkpoint"],
               ["-- hand-written checkpoint, replaces the files before it", "-- atlas:checkpoint"],
               ["-- atlas:nolint", "-- atlas:checkpoint"]]
 
+EMPTY_KINDS = ["comment", "directive", "zero", "blank"]
+
 CREATE_J = "CREATE TABLE IF NOT EXISTS j (n INTEGER PRIMARY KEY, id TEXT);"
 
 
@@ -112,6 +114,10 @@ class World:
             # the checkpoint directive is a FILE directive: anywhere in the header block that is detached from the first
             # statement by an empty line, not necessarily its first line (hand-written files carry notes / other directives)
             lines = CK_HEADERS[int(v) % len(CK_HEADERS)] + [""]
+        if f.get("empty"):
+            if f["ck"]:
+                return "\n".join(lines[:-1] + (["-- nothing else in this file"] if f["empty"] == "comment" else [])) + "\n"
+            return {"comment": "-- placeholder: nothing to do in this version\n", "directive": "-- atlas:nolint\n", "zero": "", "blank": "\n\n"}[f["empty"]]
         for s in f["stmts"]:
             if s["tag"] is None:
                 lines.append(CREATE_J)
@@ -126,9 +132,15 @@ class World:
         return [dict(version=v, **self.revs[v]) for v in sorted(self.revs)]
 
     # ---- directory operations ----
-    def add(self, ver, ck, inserts, fail_at):
+    def add(self, ver, ck, inserts, fail_at, empty=None):
+        """empty in EMPTY_KINDS: a file WITHOUT statements. It is a migration like any other: when it is its turn it is
+        recorded (applied = total = 0) and it counts for `apply N`."""
         st = [{"tag": None, "ok": True}] + [{"tag": "%ss%d" % (ver, i + 1), "ok": (i + 1) != fail_at} for i in range(inserts)]
-        self.files[ver] = {"ck": ck, "stmts": st}
+        if empty:
+            st = []
+            if ck and empty in ("zero", "blank"):
+                empty = "comment"  # a checkpoint needs its directive
+        self.files[ver] = {"ck": ck, "stmts": st, "empty": empty}
         self.ever.add(ver)
 
     def fix(self, ver):
@@ -318,8 +330,16 @@ def pick_ooo(w, rnd):
     return None
 
 
-def gen_init(rnd):
-    """initial directory: 1-3 files (one of them possibly a checkpoint), possibly a dirty database"""
+def ver_empty(ver):
+    """statement-less files among the generated adds, decided by the version number alone (no extra random draw)"""
+    n = int(ver)
+    return EMPTY_KINDS[(n // 11) % 4] if n % 11 == 0 else None
+
+
+def gen_init(rnd, seq=None):
+    """initial directory: 1-3 files (one of them possibly a checkpoint), possibly a dirty database.
+    Every 4th sequence starts with a statement-less file at a fixed position (only file / first / middle / last),
+    rotating over the four shapes (comment only, directive only, zero bytes, blank lines)."""
     ops = []
     w = World(predirty=rnd.random() < 0.25)
     for i in range(rnd.randint(1, 3)):
@@ -328,6 +348,15 @@ def gen_init(rnd):
         op = {"op": "add", "ver": ver, "ck": ck, "inserts": rnd.randint(1, 3), "fail_at": 0}
         w.add(ver, ck, op["inserts"], 0)
         ops.append(op)
+    if seq is not None and seq % 4 == 0:
+        pos = ["only", "first", "middle", "last"][(seq // 4) % 4]
+        kind = EMPTY_KINDS[(seq // 16) % 4]
+        need = {"only": 1, "first": 2, "middle": 3, "last": 2}[pos]
+        ops = ops[:1] if pos == "only" else ops
+        while len(ops) < need:
+            ops.append({"op": "add", "ver": fmt(int(ops[-1]["ver"]) + 7), "ck": False, "inserts": 1, "fail_at": 0})
+        i = {"only": 0, "first": 0, "middle": 1, "last": len(ops) - 1}[pos]
+        ops[i]["empty"] = kind
     return w.predirty, ops
 
 
@@ -365,13 +394,19 @@ def gen_op(rnd, w):
         fail = 0
         if kind == "add_fail" or (kind == "add_ck" and rnd.random() < 0.15):
             fail = rnd.randint(1, ins)
-        return {"op": "add", "ver": ver, "ck": kind == "add_ck", "inserts": ins, "fail_at": fail}
+        op = {"op": "add", "ver": ver, "ck": kind == "add_ck", "inserts": ins, "fail_at": fail}
+        if not fail and ver_empty(ver):
+            op["empty"] = ver_empty(ver)
+        return op
     if kind == "add_ooo":
         ver = pick_ooo(w, rnd)
         if ver is None:
             ver = next_top(w, rnd)
         ins = rnd.randint(1, 2)
-        return {"op": "add", "ver": ver, "ck": rnd.random() < 0.08, "inserts": ins, "fail_at": rnd.randint(1, ins) if rnd.random() < 0.1 else 0}
+        op = {"op": "add", "ver": ver, "ck": rnd.random() < 0.08, "inserts": ins, "fail_at": rnd.randint(1, ins) if rnd.random() < 0.1 else 0}
+        if not op["fail_at"] and ver_empty(ver):
+            op["empty"] = ver_empty(ver)
+        return op
     if kind == "fix":
         return {"op": "fix", "ver": rnd.choice(failing)}
     if kind == "delete":
